@@ -7,7 +7,7 @@
 From Coq Require Import ZArith.
 From FV Require Import Base.Bytes Base.BytesLemmas Gen.Generated Codec.Varint Codec.VarintProofs Codec.NV Codec.NVProofs
   Codec.Header Codec.Bodies Codec.Vars Codec.ProtoProofs
-  Parser.ReqModel Parser.ReqParamsSpec Parser.ReqWire Parser.ReqTargets Parser.ReqParams Parser.ReqDrive Parser.ReqRecords Parser.ReqFinal
+  Parser.ReqModel Parser.ReqParamsSpec Parser.ReqWire Parser.ReqTargets Parser.ReqParams Parser.ReqDrive Parser.ReqFinal
   Parser.StreamModel Parser.AbsStream Parser.StreamRefine Parser.StreamSpec Parser.StreamInv Parser.EnvCanon
   Async.ConnWrites Async.ConnTotal Async.Conn Async.ConnReads Async.PeerTargets.
 From Coq Require Import ZifyBool ZifyNat ZifyN.
@@ -233,4 +233,124 @@ Lemma replies_whole_partial_proof : replies_whole_partial_stmt.
 Proof.
   intros maxc a u Hinv Hu Ho. unfold R. apply whole_app; [exact Ho|]. apply replies_all_whole.
   apply bytes_ok_app. split; [apply Hinv|exact Hu].
+Qed.
+
+(* the counterexample to the statement as written *)
+Lemma replies_whole_full_false : ~ replies_whole_full.
+Proof.
+  intros H. specialize (H 10 (abs ex_resp) [1; 300; 0; 0; 0; 0; 0; 0] (proj2 (new_sparser_pinv _ _))).
+  replace (a_out (abs ex_resp)) with (@nil N) in H by (vm_compute; reflexivity).
+  specialize (H whole_nil). apply whole_bytes_ok, bytes_okb_ok in H. vm_compute in H. discriminate H.
+Qed.
+
+(* ------------------------------------------------------------------------------------------ *)
+(* Part 0d: the request parser's output consists of complete records                             *)
+(* ------------------------------------------------------------------------------------------ *)
+
+Lemma try_head_whole st sk d : bytes_ok d ->
+  match try_head st sk d with
+  | HeadOk t id cl pl => id < 65536
+  | HeadRet f o => whole o
+  end.
+Proof.
+  intros Hok. destruct (N.ltb_spec (len d) 8) as [Hl|Hl].
+  - rewrite try_head_short by exact Hl. apply whole_nil.
+  - rewrite try_head_long by exact Hl. pose proof (bytes_ok_take 8 d Hok) as Hh.
+    destruct (hdr_decode (take 8 d)) as [t id cl pl|v|t] eqn:E.
+    + apply hdr_decode_ok_inv in E. destruct E as (_ & -> & _). apply be16_lt; apply nthN_lt; exact Hh.
+    + apply whole_nil.
+    + apply hdr_decode_badtype_inv in E. subst t.
+      apply unk_whole; [apply nthN_lt; exact Hh|apply be16_lt; apply nthN_lt; exact Hh].
+Qed.
+
+Lemma header_drive_whole d : bytes_ok d -> whole (snd (header_drive d)).
+Proof.
+  intros Hok. rewrite header_drive_eq. pose proof (try_head_whole Header header_skip_to d Hok) as H.
+  destruct (try_head Header header_skip_to d) as [t id cl pl|f o]; [|exact H].
+  unfold header_body. destruct (t =? RT_BeginRequest).
+  - destruct (negb (BeginRequest_LEN =? cl)); [cbn [snd]; apply whole_nil|].
+    destruct (len d <? 16); [cbn [snd]; apply whole_nil|].
+    destruct (begin_decode (slice 8 16 d)) as [role [[role' flags]|]].
+    + destruct (id =? 0); cbn [snd]; apply whole_nil.
+    + cbn [snd]. apply end_whole; [unfold PS_UnknownRole; lia|exact H].
+  - destruct ((t =? RT_GetValues) && hdr_is_management t id); cbn [snd]; apply whole_nil.
+Qed.
+
+Lemma values_finish_whole wrap nxt q vars d o : whole o -> whole (snd (values_finish wrap nxt q vars d o)).
+Proof. intros H. unfold values_finish. destruct (len d <? q); exact H. Qed.
+
+Lemma values_drive_whole maxc wrap nxt vars p q d : whole (snd (values_drive maxc wrap nxt vars p q d)).
+Proof.
+  rewrite values_drive_eq. destruct (0 <? p).
+  - destruct (nv_run (take (N.min (len d) p) d)) as [ps rest].
+    destruct (len d <? p); [cbn [snd]; apply whole_nil|]. apply values_finish_whole, gv_whole.
+  - apply values_finish_whole, whole_nil.
+Qed.
+
+Lemma stage_head_whole i d : bytes_ok d -> whole (snd (stage_head i d)).
+Proof.
+  intros Hok. unfold stage_head. pose proof (try_head_whole (Params i 0 0) (params_skip_to i) d Hok) as H.
+  destruct (try_head (Params i 0 0) (params_skip_to i) d) as [t id cl pl|f o]; [|exact H].
+  cbn [snd]. unfold sh_out. cbv zeta.
+  destruct ((t =? RT_Params) && (id =? r_id (ireq i))); [apply whole_nil|].
+  destruct ((t =? RT_AbortRequest) && (id =? r_id (ireq i))) eqn:EA.
+  { apply andb_true_iff in EA as [_ EA]. apply N.eqb_eq in EA. rewrite <- EA.
+    apply end_whole; [unfold PS_RequestComplete; lia|exact H]. }
+  destruct ((t =? RT_BeginRequest) && negb (id =? r_id (ireq i))); [|apply whole_nil].
+  apply end_whole; [unfold PS_CantMpxConn; lia|exact H].
+Qed.
+
+Lemma stage_pad_whole i q d : bytes_ok d -> whole (snd (stage_pad i q d)).
+Proof.
+  intros Hok. unfold stage_pad. destruct (0 <? q); [|apply stage_head_whole, Hok].
+  destruct (len d <=? q); [cbn [snd]; apply whole_nil|apply stage_head_whole, bytes_ok_drop, Hok].
+Qed.
+
+Lemma params_drive_whole norm i p q d : bytes_ok d -> whole (snd (params_drive norm i p q d)).
+Proof.
+  intros Hok. rewrite params_drive_eq. destruct (0 <? p); [|apply stage_pad_whole, Hok].
+  destruct (len d <? p).
+  - destruct (parse_stream norm i d false) as [[i' c]|]; [|cbn [snd]; apply whole_nil].
+    destruct (p <? c); [cbn [snd]; apply whole_nil|]. destruct (len d <? c); cbn [snd]; apply whole_nil.
+  - destruct (parse_stream norm i (take p d) true) as [[i' c]|]; [|cbn [snd]; apply whole_nil].
+    destruct (negb (c =? p)); [cbn [snd]; apply whole_nil|apply stage_pad_whole, bytes_ok_drop, Hok].
+Qed.
+
+Lemma drive1_whole norm maxc s d : bytes_ok d -> whole (snd (drive1 norm maxc s d)).
+Proof.
+  intros Hok. destruct s as [|p q|vars p q|i p q|i p q|i vars p q|r p q|r|e]; cbn [drive1 snd];
+    try apply whole_nil.
+  - apply header_drive_whole, Hok.
+  - apply values_drive_whole.
+  - apply params_drive_whole, Hok.
+  - apply values_drive_whole.
+Qed.
+
+Lemma drive_whole norm maxc : forall f s d out r s' o, state_ok s -> bytes_ok d -> len d < SIZE_LIMIT -> whole out ->
+  drive norm maxc f s d out = DOk r s' o -> whole o.
+Proof.
+  induction f as [|f IH]; intros s d out r s' o Hs Hok Hsz Ho E; [discriminate E|].
+  rewrite drive_S in E. pose proof (drive1_post norm maxc (F_S1 norm) s d Hs Hok Hsz) as P.
+  pose proof (drive1_whole norm maxc s d Hok) as Hw.
+  destruct (drive1 norm maxc s d) as [[r0 s0|r0 s0|n] o0]; cbn [step_post snd] in P, Hw.
+  - injection E as <- <- <-. apply whole_app; assumption.
+  - destruct P as (P1 & P2 & P3 & P4). destruct r0 as [|b r0'].
+    + injection E as <- <- <-. apply whole_app; assumption.
+    + apply (IH s0 (b :: r0') (out ++ o0) r s' o); [apply P1|eapply suffix_ok; eassumption| |apply whole_app; assumption|exact E].
+      pose proof (suffix_len _ _ P3). lia.
+  - contradiction.
+Qed.
+
+Lemma parse_out_whole_proof : parse_out_whole_stmt.
+Proof.
+  intros norm maxc p new p' d out (Hs & _ & Hh & Hl & Hc) Hn Hf E.
+  unfold parse in E. unfold input_space in Hf.
+  destruct (cap p - len (held p) <? len new); [discriminate E|].
+  destruct (drive_all norm maxc (st p) (held p ++ new)) as [rest s' o|n|] eqn:ED; try discriminate E.
+  assert (Ho : whole o).
+  { unfold drive_all in ED. apply (drive_whole norm maxc _ _ _ [] _ _ _ Hs) in ED; [exact ED| | |apply whole_nil].
+    - apply bytes_ok_app; split; assumption.
+    - rewrite len_app. lia. }
+  destruct (len (held p ++ new) <? len rest); [discriminate E|].
+  destruct (negb (is_final s') && (len rest =? cap p)); injection E as <- <- <-; exact Ho.
 Qed.
